@@ -54,6 +54,8 @@ var c13Notations = []notation{
 	{`ESC`, "\x1b"}, {`M-a`, "\x1ba"}, {`RET`, "\r"}, {`SPC`, " "}, {`Rubout`, "\x7f"}, {`Return`, "\r"}, {`C-a`, "\x01"},
 	{`control-b`, "\x02"}, {`"\C-b\C-b"`, "\x02\x02"}, {`"\ez"`, "\x1bz"}, {`"\e\e"`, "\x1b\x1b"}, {`"xyz"`, "xyz"}, {`"\C-]q"`, "\x1dq"},
 	{`"\C-]w"`, "\x1dw"}, {`"\C-]e"`, "\x1de"}, {`"\C-]r"`, "\x1dr"}, {`"\C-]t"`, "\x1dt"}, {`"\C-]y"`, "\x1dy"},
+	// a prefix with nothing after it before the closing quote: a bare \M- is the ESC it stands for
+	{`"\M-"`, "\x1b"}, {`"\C-]\M-"`, "\x1d\x1b"}, {`"\C-]u\M-"`, "\x1du\x1b"},
 }
 
 var c13Keymaps = []string{"emacs", "emacs-standard", "emacs-meta", "emacs-ctlx", "vi", "vi-move", "vi-command", "vi-insert"}
